@@ -467,6 +467,10 @@ func ruleErrChain(c *Ctx) {
 				if isNilConst(v) {
 					continue
 				}
+				if why := b.behindExhaustedTypeSwitch(r.Block()); why != "" {
+					l.add("R-ERRCHAIN", b.Name, fmt.Sprintf("TF-all: return #%s of the test handler is neither a lookup failure nor a verdict", b.retOrdinal(r)), b.posOf(r), Discharged, why, false)
+					continue
+				}
 				deps := b.controlDeps(r.Block())
 				isLookup := false
 				depDesc := []string{}
@@ -1486,4 +1490,67 @@ func sameOperand(x, y ssa.Value) bool {
 		}
 	}
 	return false
+}
+
+// behindExhaustedTypeSwitch: control reaches blk only after a value of a library interface
+// type has failed the type assertion to every library type that implements the interface —
+// the default arm of a type switch that names them all. Only the nil interface gets there,
+// which the root-slot obligations of R-TYPESTATE exclude for the document.
+func (b *Body) behindExhaustedTypeSwitch(blk *ssa.BasicBlock) string {
+	failed := map[ssa.Value][]types.Type{}
+	for _, f := range dominatingFacts(blk) {
+		if f.True {
+			continue
+		}
+		ex, ok := f.V.(*ssa.Extract)
+		if !ok || ex.Index != 1 {
+			continue
+		}
+		ta, ok := ex.Tuple.(*ssa.TypeAssert)
+		if !ok || !ta.CommaOk {
+			continue
+		}
+		failed[ta.X] = append(failed[ta.X], ta.AssertedType)
+	}
+	for x, ts := range failed {
+		named, ok := x.Type().(*types.Named)
+		if !ok || named.Obj().Pkg() != b.Lib.Pkg {
+			continue
+		}
+		iface, ok := named.Underlying().(*types.Interface)
+		if !ok || iface.NumMethods() == 0 {
+			continue
+		}
+		n, all := 0, true
+		for _, m := range b.Lib.Members {
+			tn, ok := m.(*ssa.Type)
+			if !ok {
+				continue
+			}
+			for _, cand := range []types.Type{tn.Type(), types.NewPointer(tn.Type())} {
+				if types.IsInterface(cand) || !types.Implements(cand, iface) {
+					continue
+				}
+				n++
+				hit := false
+				for _, t := range ts {
+					if types.Identical(t, cand) {
+						hit = true
+					}
+				}
+				if !hit {
+					// a value type whose pointer type was asserted does not occur on its own
+					if _, isPtr := cand.(*types.Pointer); !isPtr && types.Implements(types.NewPointer(cand), iface) {
+						n--
+						continue
+					}
+					all = false
+				}
+			}
+		}
+		if n > 0 && all {
+			return fmt.Sprintf("reached only after a %s failed the assertion to each of the %d types that implement it: the default arm of an exhaustive type switch", named.Obj().Name(), n)
+		}
+	}
+	return ""
 }
